@@ -261,6 +261,33 @@ Example C06_forbidden_traces_rejected :
      C (FData 1 65536 false); P (FSettings [(5, 16384)]); C FSettingsAck; C (FData 1 16384 false)].
 Proof. vm_compute. repeat split. Qed.
 
+(* a slot the client has freed is free on the peer's books too: every forgotten stream is closed
+   there, and the peer never counts more open streams than the client holds *)
+Theorem C06_peer_open_le_client_active : forall prio_len prio_last stream_in conn_flow,
+  cfg_ok prio_len prio_last stream_in conn_flow ->
+  forall evs, exists m',
+  mon_steps (mon_init stream_in conn_flow) (trace_of prio_len prio_last stream_in conn_flow evs) = Some m' /\
+  let c := fst (conn_run (conn0 prio_len prio_last stream_in conn_flow) evs) in
+  open_count (m_streams m') <= active_count (cc_streams c) /\
+  (forall sid s, find_cs sid (cc_streams c) = Some s -> cs_forgotten s = true ->
+     exists ms, find_ms sid (m_streams m') = Some ms /\ ms_closed ms = true).
+Proof. exact peer_open_le_client_active. Qed.
+Print Assumptions C06_peer_open_le_client_active.
+
+(* a final response in the middle of an upload (END_STREAM on the response HEADERS), limit 1: the
+   machine can neither forget the stream nor open the next one before it has closed its own half
+   (here RST_STREAM); the trace without that RST_STREAM is rejected by the monitor *)
+Example C06_early_final_response :
+  trace_of 0 0 1000 1000
+    [ESettings [(3,1)]; EOpen 10 false; ESendData 1 500 false; EPeerHeaders 1 true; EForget 1; EOpen 10 true;
+     EReset 1; EOpen 10 true] =
+    [P (FSettings [(3, 1)]); C FSettingsAck; C (FHeaders 1 10 true false); C (FData 1 500 false);
+     P (FHeaders 1 0 true true); C (FRst 1); C (FHeaders 3 10 true true)] /\
+  accepts (mon_init 1000 1000)
+    [P (FSettings [(3, 1)]); C FSettingsAck; C (FHeaders 1 10 true false); C (FData 1 500 false);
+     P (FHeaders 1 0 true true); C (FHeaders 3 10 true true)] = false.
+Proof. vm_compute. split; reflexivity. Qed.
+
 (* non-vacuity: a legal configuration (priority fields on HEADERS, Firefox-like PRIORITY frames up
    to stream 13, stream window 1000) and an interleaving with a 40000-byte header block, the
    peer lowering MAX_CONCURRENT_STREAMS to 1 and INITIAL_WINDOW_SIZE to 100 and then 0 (window
